@@ -104,6 +104,7 @@ struct World
 
 extern World* W;
 extern std::unordered_set<uint64_t> g_visited; // (state key, choice)
+extern int g_no_record; // > 0 while the explorer allocates for structures that outlive the execution
 extern unsigned long long g_pruned;
 
 inline void fail(std::string kind, std::string detail)
@@ -168,7 +169,10 @@ inline int pick(int n, bool sched, int cur_enabled, int ea, int eb)
   {
     // a fresh decision (the last replayed choice is the new alternative, everything after it is the default)
     uint64_t const vk = key * 1099511628211ull + static_cast<uint64_t>(c + 1);
-    if (!g_visited.insert(vk).second)
+    ++g_no_record;
+    bool const known = !g_visited.insert(vk).second;
+    --g_no_record;
+    if (known)
     {
       ++g_pruned;
       W->abort_exec = true; // this state was already left through this choice: the rest is known
